@@ -1,0 +1,30 @@
+//go:build verif && unix
+
+package readline
+
+import (
+	"io"
+	"os"
+
+	"github.com/reeflective/readline/internal/core"
+	"github.com/reeflective/readline/internal/display"
+	"github.com/reeflective/readline/internal/history"
+)
+
+// This file only exists with the "verif" build tag. It exports the
+// simulation seams that live in internal packages to a test harness.
+
+// VerifSetStdin replaces the reader the key stack reads from.
+func VerifSetStdin(r io.ReadCloser) { core.Stdin = r }
+
+// VerifSetCursorRead replaces the direct terminal read of the cursor query.
+func VerifSetCursorRead(f func(buf []byte) (int, error)) { core.VerifSetCursorRead(f) }
+
+// VerifSetYield installs the scheduling-point callback.
+func VerifSetYield(f func(site string)) { core.VerifSetYield(f) }
+
+// VerifSetResizeHook hands the resize watcher's channels to the harness.
+func VerifSetResizeHook(f func(sig chan os.Signal, done chan bool)) { display.VerifSetResizeHook(f) }
+
+// VerifSetFileFault installs the history file short-write hook.
+func VerifSetFileFault(f func(length int) (cut int, err error)) { history.VerifSetFileFault(f) }
